@@ -865,10 +865,11 @@ journal / frame / interpreter code: the code store does not know a hash (`code_b
 precompile panics (C23: MODEXP on a huge length and gas limit does, so unconditional panic-freedom is FALSE), a missing
 oracle answer, a fatal database error; `Resid` — NOT excluded here: interpreter faults (`interpreter: …`,
 `insert outcome: …`, `free_context`, an EOFCREATE action, an internal result flag), `sload` / `sstore` / `selfdestruct`
-on an account that is not loaded, the environment (`already checked`, `initcode_cost`), and the fuel. Everything else —
+on an account that is not loaded, and the fuel. The two environment panics (`already checked`, `initcode_cost`) are
+impossible for EVERY environment (`tv_validateEnv_ne_panic`, `initialTxGas_ne_none`). Everything else —
 every `unwrap` of the journal and of the frame machine: `load_account`, `load_code`, `load_account_delegated`, `touch`,
 `transfer`, `checkpoint_revert`, `inc_nonce`, `create_account_checkpoint`, `set_code`, `tstore`, `account not loaded`,
-`code not cached`, `empty call stack` — is proved impossible. -/
+`code not cached`, `empty call stack`, `already checked`, `initcode_cost` — is proved impossible. -/
 
 open Revm.Proofs.Frame (Good DbBal) in
 /-- LINK (C07 `hostStep_total` on EvmHost): every `Host` answer on a well-formed world, with the account whose storage is
@@ -928,8 +929,7 @@ failures. NOT proved: what is missing is (1) C25's per-frame invariant (`init_in
 code and input within `isize::MAX`, fresh memory context below 2^62 — `step_good` with `RespOk` for every `Host` answer
 and `ChildOk` for every delivered result, `insert_*_outcome` on the memory the child gives back), which removes
 `interpreter: …`, `insert outcome: …`, `free_context`, the EOFCREATE action and the internal result flags; (2) that a
-frame asks `sload` / `sstore` / `selfdestruct` only about its own loaded address; (3) a well-formed environment
-(`already checked`, `initcode_cost`). -/
+frame asks `sload` / `sstore` / `selfdestruct` only about its own loaded address. -/
 def FullStatement_transact_total_link : Prop :=
   ∀ (fuel : Nat) (w : World) (e : Evm.Env) (spec : Nat), WOk w → 2 * e.tx.gasLimit + 2 ≤ fuel →
     (∃ r, Evm.transact fuel w e spec = .ok r) ∨ (∃ err, Evm.transact fuel w e spec = .error err ∧ Soft err)
